@@ -497,21 +497,79 @@ def install(recorder):
         import jellyfysh.mediator.multi_process_mediator.multi_process_mediator as mpm
         orig_rip = mpm.run_in_process
 
+        class WorkerLog:
+            """Per-worker log of its synchronisation operations, in program order (one file per worker process): the
+            worker side of MultiProc.tla, validated by TraceWorker.tla."""
+
+            def __init__(self, hid, handler):
+                self.hid, self.n = hid, 0
+                self.f = open("%s.w%d" % (REC.out.name, hid), "w") if hid else None
+                self("init", tin=int(handler.number_send_event_time_arguments > 0),
+                     tout=int(handler.number_send_out_state_arguments > 0))
+
+            def __call__(self, op, **kw):
+                if self.f is not None:
+                    self.n += 1
+                    self.f.write(json.dumps(dict(hid=self.hid, seq=self.n, op=op, **kw)) + "\n")
+                    self.f.flush()
+
         class PausingSemaphore:
-            def __init__(self, inner, hid):
-                self.inner, self.hid = inner, hid
+            def __init__(self, inner, hid, log):
+                self.inner, self.hid, self.log = inner, hid, log
 
             def acquire(self, *a, **k):
-                return self.inner.acquire(*a, **k)
+                r = self.inner.acquire(*a, **k)
+                self.log("acquire")
+                return r
 
             def release(self):
                 self.inner.release()
+                self.log("release")
                 REC.worker_delay(self.hid, 2)
+
+        class LoggedEvent:
+            def __init__(self, inner, name, log):
+                self.inner, self.name, self.log = inner, name, log
+
+            def wait(self, *a, **k):
+                r = self.inner.wait(*a, **k)
+                self.log("wait_" + self.name)
+                return r
+
+            def is_set(self):
+                return self.inner.is_set()
+
+            def clear(self):
+                self.inner.clear()
+                self.log("clear_" + self.name)
+
+            def set(self):
+                self.inner.set()
+                self.log("set_" + self.name)
+
+        class LoggedPipe:
+            def __init__(self, inner, log):
+                self.inner, self.log = inner, log
+
+            def recv(self):
+                r = self.inner.recv()
+                self.log("recv")
+                return r
+
+            def send(self, obj):
+                self.inner.send(obj)
+                self.log("send")
+
+            def __getattr__(self, name):
+                return getattr(self.inner, name)
 
         @functools.wraps(orig_rip)
         def run_in_process(self, pipe, start_event, continue_event, start_or_continue_event, semaphore):
-            return orig_rip(self, pipe, start_event, continue_event, start_or_continue_event,
-                            PausingSemaphore(semaphore, REC.hid(self)))
+            hid = REC.hid(self)
+            log = WorkerLog(hid, self)
+            return orig_rip(self, LoggedPipe(pipe, log), LoggedEvent(start_event, "start", log),
+                            LoggedEvent(continue_event, "continue", log), LoggedEvent(start_or_continue_event, "or", log),
+                            PausingSemaphore(semaphore, hid, log))
         mpm.run_in_process = run_in_process
     except Exception:
         pass
